@@ -1,0 +1,19 @@
+//go:build verif
+
+package cose
+
+import "io"
+
+// Proof harnesses, compiled only with the build tag "verif" (never part of the
+// library). Each function composes library entry points exactly as a caller
+// would; its contract in contracts_verif.go states the end-to-end property
+// that must follow from the callees' contracts alone.
+
+// lemmaSign1SignThenVerify: a Sign1Message signed by a signer verifies under
+// a matching verifier (C01, in memory).
+func lemmaSign1SignThenVerify(m *Sign1Message, rand io.Reader, external []byte, signer Signer, verifier Verifier) error {
+	if err := m.Sign(rand, external, signer); err != nil {
+		return nil
+	}
+	return m.Verify(external, verifier)
+}
